@@ -26,6 +26,7 @@ GapsDef == %s
 RInit == Init /\\ log = <<>>
 RNext == \\/ \\E f \\in Formulas : Parse(1, f) /\\ log' = Append(log, [a |-> "parse", phi |-> f, cfg |-> ms[1].cfg])
          \\/ \\E c \\in Configs : Reconfigure(1, c) /\\ log' = Append(log, [a |-> "config", cfg |-> c])
+         \\/ \\E f \\in Formulas : Reparse(1, f) /\\ log' = Append(log, [a |-> "reparse", phi |-> f])
          \\/ PastifyA(1) /\\ log' = Append(log, [a |-> "pastify"])
          \\/ Repastify(1) /\\ log' = Append(log, [a |-> "pastify"])
          \\/ \\E s \\in Samples(ms[1].cfg.vars), g \\in Gaps :
@@ -109,6 +110,8 @@ def to_cases(behs, vars_, factories=("StlDiscreteTimeSpecification", "StlDiscret
                 evs.append({"o": 1, "a": "pastify"})
             elif e["a"] == "reset":
                 evs.append({"o": 1, "a": "reset"})
+            elif e["a"] == "reparse":
+                evs.append({"o": 1, "a": "reparse", "phi": e["phi"], "text": "out = " + to_text(e["phi"], 1)})
             elif e["a"] == "config":
                 # Reconfigure: set_sampling_period() with the new tolerance, set_var_io_type() of every variable and parse() again
                 c = e["cfg"]
